@@ -239,7 +239,14 @@ def run(ctx, chk):
                 vals = s2.aset(atoms[0])
                 c = getattr(rv, "cond", None)
                 for v in vals.values():
-                    table[v] = c
+                    if c is True or c is False or c is None:
+                        table[v] = c
+                    else:
+                        # a symbolic condition (`data != 0`): decide it at this argument value
+                        s3 = s2.copy()
+                        s3.pc.sets[atoms[0]] = IntSet.of(v)
+                        d = s3.decide(c)
+                        table[v] = c if d is None else d
             chk.ob(table == {0: False, 1: True}, "C04/flag-leaf/%s/%r" % (leaf, table),
                    "flag decoder %s [%s] is not 0->false, 1->true: %r" % (leaf, cfg, table),
                    sample={"flag_leaf": leaf, "table": {str(k): v for k, v in table.items()}})
